@@ -3,6 +3,7 @@ package checks
 import (
 	"encoding/json"
 	"fmt"
+	textwire "github.com/textwire/textwire/v2"
 	"os"
 	"os/exec"
 	"strings"
@@ -74,12 +75,27 @@ func c14Outcome(c *harness.Check, cs detCase) (string, bool) {
 	return "out=" + r.Out + "\nerr=" + r.Err, true
 }
 
+// the failing ones last: whatever they leave behind meets the case itself
+var c14Disturbers = []string{
+	"@each(n in nums){{ n }},@end {{ {b: 1, a: [2, 3]} }} @for(i = 0; i < 2; i++)x@end",
+	"{{ zzMissing }}",
+	"@for(i = 0; i < 3; i++)<{{ 1 / (1 - i) }}>@end",
+	"<p>@each(n in nums)[{{ 12 / n }}]@end</p>",
+}
+
 func c14Run(c *harness.Check, cs detCase, n int) string {
 	first, ok := c14Outcome(c, cs)
 	if !ok {
 		return first
 	}
 	for i := 1; i < n; i++ {
+		if i%3 == 0 {
+			// other renders in between (failing half-way through a loop, failing at
+			// once, succeeding) are no input of this one
+			for _, src := range c14Disturbers {
+				harness.Safe(func() { textwire.EvaluateString(src, map[string]any{"nums": []int{3, 4, 0, 6}}) })
+			}
+		}
 		again, ok := c14Outcome(c, cs)
 		if !ok {
 			return again
